@@ -699,6 +699,143 @@ def tie_decisions(ctx):
     common.compare(ctx, ops, impl, model, key=lambda op: ' '.join(op.split(' ')[1:3]) if op.split(' ')[1] in ('cert', 'certdefault') else op.split(' ')[1])
 
 
+def _cnt_fact(K):
+    import collections
+    return math.prod(math.factorial(v) for v in collections.Counter(K).values())
+
+
+def _code_vector_from_model(hv, N, dA, dB, q, n):
+    """the vector has_rank_hierarchical_method builds for one multi-index, from the model's scaled integer vector:
+    factor/q! uniformly, and sqrt(s!/prod count(K)!)/s! on the symmetric index K (no weight for k=1 and for the N=1 shortcut)"""
+    s_ = n - q
+    nx = math.comb(dA, q) * math.comb(dB, q)
+    if s_ == 0:
+        keys = [()]
+    elif N == 1:
+        keys = [(j,) for j in range(dA * dB)]
+    else:
+        keys = list(itertools.combinations_with_replacement(range(dA * dB), s_))
+    w = np.array([1.0 if (s_ == 0 or N == 1) else math.sqrt(math.factorial(s_) / _cnt_fact(K)) / math.factorial(s_) for K in keys])
+    factor = 1 / math.comb(n, q)
+    return (np.asarray(hv, dtype=np.float64).reshape(nx, len(keys)) * w * (factor / math.factorial(q))).reshape(-1)
+
+
+def tie_level_k(ctx):
+    """hierarchy levels k >= 1: the symmetric factor, the per-sub-tuple pieces and the Gram matrix of has_rank_hierarchical_method
+    on integer generators against the model's exact integer vectors"""
+    from numqi.matrix_space import _hierarchy as H
+    rng = np.random.default_rng(ctx.np_seed + 5)
+    # (dA, dB, N, rank, k)
+    cfg = [(2, 2, 2, 2, 2), (2, 3, 3, 2, 2), (2, 2, 2, 2, 3), (3, 3, 2, 3, 2), (2, 2, 1, 2, 3), (2, 2, 3, 2, 1), (3, 3, 1, 3, 2)]
+    if not ctx.quick():
+        cfg += [(3, 3, 3, 2, 3), (3, 4, 3, 3, 2), (3, 3, 2, 3, 3), (2, 3, 2, 2, 4), (4, 4, 2, 4, 2), (3, 3, 3, 3, 2)]
+    for dA, dB, N, rank, k in cfg:
+        q, n = rank, rank - 1 + k
+        for attempt in range(5):
+            mats = rng.integers(-2, 3, size=(N, dA, dB))
+            g = mats.reshape(N, -1) @ mats.reshape(N, -1).T
+            if np.linalg.eigvalsh(g.astype(float))[0] > 0.5:
+                break
+        else:
+            continue
+        np_list = [x.astype(np.float64) for x in mats]
+        alphas = list(itertools.combinations_with_replacement(range(N), n))
+        # --- the pieces: tensor2d_project_to_sym_antisym_basis (antisymmetric part per sub-tuple, symmetric part of the rest)
+        for al in alphas[:6] + alphas[-3:]:
+            res = guarded(lambda: H.tensor2d_project_to_sym_antisym_basis(np_list, rank - 1, list(al)))
+            subs = list(itertools.combinations(range(n), q))
+            ops, want = [], []
+            for j, sub in enumerate(subs):
+                rest = [x for x in range(n) if x not in sub]
+                ia = [al[x] for x in sub]
+                ops.append(f'C20 proj {dA} {dB} {";".join(map(str, ia))} {ints(mats)}')
+                fac = 1.0 if k == 1 else 1 / math.comb(n, q)
+                want.append(None if isinstance(res, str) else np.asarray(res[0])[:, :, j].reshape(-1) * math.factorial(q) / fac)
+                if rest:
+                    isym = [al[x] for x in rest]
+                    ops.append(f'C20 sympart {dA} {dB} {N} {";".join(map(str, isym))} {ints(mats)}')
+                    if isinstance(res, str):
+                        want.append(None)
+                    else:
+                        col = np.asarray(res[1])[:, j]
+                        if N == 1:
+                            want.append(col)
+                        else:
+                            keys = list(itertools.combinations_with_replacement(range(dA * dB), len(rest)))
+                            want.append(col * np.array([math.sqrt(math.factorial(len(rest)) * _cnt_fact(K)) for K in keys]) if len(col) == len(keys) else None)
+            mo = common.run_model(ops)
+            for op, line, w in zip(ops, mo, want):
+                ctx.count('level-k-' + op.split(' ')[1])
+                if w is None:
+                    ctx.disagree(op, line[:200], res if isinstance(res, str) else 'shape'); continue
+                mv = np.array([int(x) for x in line.split(';')]) if line and line != 'bad-op' else np.zeros(0)
+                if mv.shape == w.shape and np.abs(mv - w).max(initial=0) <= 1e-9 * max(1.0, np.abs(mv).max(initial=0)):
+                    ctx.agree(op, op)
+                else:
+                    ctx.disagree(op, line[:200], repr(np.asarray(w).tolist())[:200])
+        # --- the Gram matrix of the whole family
+        res = guarded(lambda: H.has_rank_hierarchical_method(np.stack(np_list), rank, hierarchy_k=k, return_info=True))
+        ops = [f'C20 hvec {dA} {dB} {N} {q} {";".join(map(str, al))} {ints(mats)}' for al in alphas]
+        mo = common.run_model(ops)
+        ctx.count('level-k-gram')
+        opg = f'C20 hvec-gram {dA} {dB} {N} {rank} {k} {ints(mats)}'
+        if isinstance(res, str) or any(x == 'bad-op' for x in mo):
+            ctx.disagree(opg, mo[0][:100], str(res)[:100]); continue
+        V = np.stack([_code_vector_from_model([int(x) for x in line.split(';')], N, dA, dB, q, n) for line in mo])
+        G = V @ V.T
+        got = np.asarray(res[1])
+        if got.shape == G.shape and np.abs(got - G).max() <= 1e-9 * max(1.0, np.abs(G).max()):
+            ctx.agree(opg, opg)
+        else:
+            ctx.disagree(opg, repr(G.tolist())[:300], repr(got.tolist())[:300] if got.shape == G.shape else f'shape {got.shape} vs {G.shape}')
+
+
+def tie_tripartite(ctx):
+    """is_ABC_completely_entangled_subspace: the two matricisations handed to the contractions and the sum of the two cut outputs,
+    captured in-process by wrapping opt_einsum.contract_expression; dimA != dimB != dimC"""
+    from numqi.matrix_space import _hierarchy as H
+    rng = np.random.default_rng(ctx.np_seed + 6)
+    oe = H.opt_einsum
+    orig_ce = oe.contract_expression
+    for dA, dB, dC in ([(2, 3, 2), (3, 2, 2), (2, 3, 4), (2, 2, 2)] if ctx.quick() else [(2, 3, 2), (3, 2, 2), (2, 3, 4), (2, 2, 2), (3, 2, 4), (4, 3, 2), (2, 2, 3)]):
+        N = 2
+        ts = rng.integers(-2, 3, size=(N, dA, dB, dC)) + 1j * rng.integers(-2, 3, size=(N, dA, dB, dC))
+        calls = []
+
+        def fake_ce(*a, **kw):
+            expr = orig_ce(*a, **kw)
+            eid = len([c for c in calls if c[0] == 'create'])
+            calls.append(('create', eid, tuple(a[0])))
+
+            def run(x, y, *rest, **kw2):
+                out = expr(x, y, *rest, **kw2)
+                calls.append(('call', eid, np.array(x), np.array(y), np.array(out)))
+                return out
+            return run
+        with patched((oe, 'contract_expression', fake_ce)):
+            res = guarded(lambda: H.is_ABC_completely_entangled_subspace(list(ts), hierarchy_k=1))
+        pairs = list(itertools.combinations_with_replacement(range(N), 2))
+        cl = [c for c in calls if c[0] == 'call']
+        op0 = f'C20 abc-calls {dA} {dB} {dC}'
+        ctx.count('abc-calls')
+        if isinstance(res, str) or len(cl) != 2 * len(pairs):
+            ctx.disagree(op0, f'{2 * len(pairs)} contractions (cuts A|BC and AB|C for each pair)', res if isinstance(res, str) else f'{len(cl)} contractions'); continue
+        ctx.agree(op0, op0)
+        ops, impl = [], []
+        for pi, (i, j) in enumerate(pairs):
+            c1, c2 = cl[2 * pi], cl[2 * pi + 1]
+            for cut, c in (('A_BC', c1), ('AB_C', c2)):
+                for which, t in ((2, ts[i]), (3, ts[j])):
+                    ops.append(f'C20 matabc {cut} {dA} {dB} {dC} {ints(t.real)}'); impl.append(ints(c[which].real))
+                    ops.append(f'C20 matabc {cut} {dA} {dB} {dC} {ints(t.imag)}'); impl.append(ints(c[which].imag))
+            tot = 4 * (c1[4].reshape(-1) + c2[4].reshape(-1)) if c1[4].size == c2[4].size else np.zeros(0)
+            ops.append(f'C20 abcvec {dA} {dB} {dC} ' + ';'.join(f'{int(z.real)},{int(z.imag)}' for z in ts[i].reshape(-1)) + ' '
+                       + ';'.join(f'{int(z.real)},{int(z.imag)}' for z in ts[j].reshape(-1)))
+            impl.append(';'.join(f'{int(round(z.real))},{int(round(z.imag))}' for z in tot) if np.abs(tot - np.round(tot)).max(initial=0) < 1e-9 else 'nonintegral')
+        model = common.run_model(ops)
+        common.compare(ctx, ops, impl, model, key=lambda op: 'abc-' + op.split(' ')[1])
+
+
 def correspondence(ctx):
     tie_tables(ctx)
     tie_projection(ctx)
@@ -706,6 +843,8 @@ def correspondence(ctx):
     tie_bipartite(ctx)
     tie_numrange(ctx)
     tie_decisions(ctx)
+    tie_level_k(ctx)
+    tie_tripartite(ctx)
 
 
 # ---------------------------------------------------------------------------
